@@ -10,3 +10,50 @@ REPLAYERS = {'wrapper': replay_wrapper}
 def tasks(tier):
     n = 40 if tier == 'quick' else 1000
     return [(f'{op}', wrapper_task(op, 'C03', n)) for op in OPS if goals_for(op, OpPre, ('C03',))]
+
+
+# ---------------------------------------------------------------- C03.f: the Token-2022 transfer-fee gross-up (deposit / repay pull `pre` so that the vault receives at least what is credited)
+def t_pre_fee(world):
+    import z3
+    eng = world.engine(merge=False)
+    f = world.fn(r'(^|::)calculate_pre_fee_amount$')
+    tf = eng.ex.fresh(f.params[0][1], 'tf'); post = eng.ex.fresh('u64', 'post')
+    res = eng.run_fn(f, [tf, post])
+    ob = Ob('C03.f', 'calculate_pre_fee_amount: Some(pre) => pre - fee(pre) >= post (the vault receives at least the amount credited to the user), pre >= post, pre fits u64 (None instead of a wrapped value); '
+            'fee(x) = min(ceil(x*bps/10^4), maximum_fee) is the Token-2022 fee rule (trusted SPL semantics)',
+            [f.name] + [x.name for x in world.fns(r'(^|::)ceil_div$')], 'loop-free; every path; all u64 amounts and maximum fees, all fee rates 0..=10000 bps (symbolic)'); ob.paths = len(res)
+    names = set()
+    for r in res: names |= set(free_consts(z3.And(r['pc'] + [post.e >= 0])))
+    mx = [n for n in names if 'PodU64_from' in n]; bp = [n for n in names if 'PodU16_from' in n]
+    if len(mx) != 1 or len(bp) != 1: ob.fail(f'transfer-fee fields not identified: {mx} {bp}'); return [ob]
+    MX, BPS, POST = z3.Int(mx[0]), z3.Int(bp[0]), post.e
+    dom = [BPS >= 0, BPS <= 10000, MX >= 0, MX <= U64_MAX]
+    cdiv = lambda a, b: (a + b - 1) / b
+    fee = lambda x: z3.If(z3.Or(BPS == 0, x == 0), 0, z3.If(cdiv(x * BPS, 10000) <= MX, cdiv(x * BPS, 10000), MX))
+    for r, somec in ok_paths(res, 1):
+        h = dom + [somec]
+        if ob.witness(eng, r, h) is False: continue
+        pre = r['ret'].payload[1][0].e
+        ob.prove(eng, r, h, pre - fee(pre) >= POST, 'pre - fee(pre) >= post: tokens arriving in the vault cover the amount booked', role='gross-up', replay='pre_fee', timeout=120000)
+        ob.prove(eng, r, h, z3.And(pre >= POST, pre <= U64_MAX), 'pre >= post and fits u64', role='gross-up-range', replay='pre_fee')
+        ob.prove(eng, r, h + [BPS < 10000, POST > 0], z3.Or(pre == 0, (pre - 1) - fee(pre - 1) <= POST), 'pre is within one unit of the least sufficient amount (no systematic overcharge)', role='gross-up-minimal', replay='pre_fee', timeout=120000)
+    ob.need_witness()
+    return [ob]
+
+
+def replay_pre_fee(model, spec=None):
+    mxn = [k for k in model if 'PodU64_from' in k]; bpn = [k for k in model if 'PodU16_from' in k]
+    mx = int(model.get(mxn[0], 0)) if mxn else 0; bps = int(model.get(bpn[0], 0)) if bpn else 0; post = int(model.get('post', 0))
+    req = {'fn': 'pre_fee_amount', 'bps': str(bps), 'max_fee': str(mx), 'post': str(post)}
+    out = native([req])[0]
+    if out.get('pre') is None: return False, {'request': req, 'native': out, 'verdict': 'native returns None: not reproduced'}
+    pre = int(out['pre'])
+    fee = int(out['spl_fee_of_pre']) if out.get('spl_fee_of_pre') is not None else (0 if (bps == 0 or pre == 0) else min((pre * bps + 9999) // 10000, mx))     # the real spl-token-2022 TransferFee::calculate_fee
+    viol = pre - fee < post or pre < post
+    return viol, {'request': req, 'native': out, 'fee_of_pre': fee, 'vault_receives': pre - fee, 'verdict': 'the vault receives less than the amount booked' if viol else 'not reproduced'}
+
+
+REPLAYERS['pre_fee'] = replay_pre_fee
+_t_c03 = tasks
+def tasks(tier):
+    return _t_c03(tier) + [('pre_fee', t_pre_fee)]
